@@ -124,6 +124,9 @@ process_data(struct video_filter_s* self,
                         .shape = shape,
                         .timestamps = in->timestamps,
                     };
+                    // the region comes from a ring buffer: it holds whatever
+                    // was written there on an earlier lap, not zeros
+                    memset((*accumulator)->data, 0, bytes_of_image(&shape));
                     CHECK(accumulate(*accumulator, in));
                     *frame_count = 1;
                 }
